@@ -100,6 +100,9 @@ func (it *Interp) desc(v Value, depth int, stack []*Object) string {
 				name = n
 			}
 		}
+		if m, ok := it.dataLookup(o, "message").(string); ok && len(m) > 0 && len(m) <= 24 && strings.IndexFunc(m, func(r rune) bool { return r < '!' || r > '~' }) < 0 {
+			return "Error:" + name + "(" + m + ")"
+		}
 		return "Error:" + name
 	}
 	if inChain(it.realm.GeneratorPrototype, o) {
